@@ -253,6 +253,133 @@ Section ExecConeProofs.
     - destruct H as (p & q & Hp & Hq & Hpo & _ & _ & Hne). apply Hne. apply Hbuilt; [exact Hp|].
       apply memN_In. apply in_outs. eauto.
   Qed.
+  (* ---------------------------------------------------------------------------------------- *)
+  (* All schedules                                                                            *)
+  (* ---------------------------------------------------------------------------------------- *)
+  Lemma stt_mono_step proj q y id : stt y id = Succeeded -> stt (step_build proj q y) id = Succeeded.
+  Proof.
+    intros H. unfold Engine.step_build.
+    destruct (is_succ (stt y (sid q))); [exact H|].
+    destruct (negb (ready proj y q)); [exact H|].
+    destruct (can_skip q y); cbn; unfold upd; destruct (id =? sid q); auto.
+  Qed.
+
+  Lemma stt_mono_from proj id : forall todo y,
+    stt y id = Succeeded -> stt (build_from proj todo y) id = Succeeded.
+  Proof.
+    induction todo as [|q r IH]; intros y H; [exact H|]. rewrite build_from_cons. apply IH.
+    apply stt_mono_step. exact H.
+  Qed.
+
+  Lemma step_build_noop_succ proj q y : stt y (sid q) = Succeeded -> step_build proj q y = y.
+  Proof. intros H. unfold Engine.step_build. rewrite H. reflexivity. Qed.
+
+  Lemma runs_at_succ proj q y : runs_at proj q y -> stt (step_build proj q y) (sid q) = Succeeded.
+  Proof.
+    intros (H1 & H2 & H3). unfold Engine.step_build. rewrite H1, H2, H3. cbn. apply upd_same.
+  Qed.
+
+  (* a step that is still PENDING after a part of the build has its trace untouched *)
+  Lemma pending_untouched proj y1 : forall d id,
+    stt (build_from proj d y1) id = Pending -> tr (build_from proj d y1) id = tr y1 id.
+  Proof.
+    induction d as [|q d IH] using rev_ind; intros id H; [reflexivity|].
+    rewrite build_from_app in *.
+    change (build_from proj [q] (build_from proj d y1)) with (step_build proj q (build_from proj d y1)) in *.
+    set (y' := build_from proj d y1) in *.
+    destruct (step_build_frame run proj q y') as (_ & _ & F3 & F4).
+    destruct (N.eq_dec id (sid q)) as [->|Hne].
+    - revert H. unfold Engine.step_build.
+      destruct (is_succ (stt y' (sid q))); [intros H; apply IH; exact H|].
+      destruct (negb (ready proj y' q)); [intros H; apply IH; exact H|].
+      destruct (can_skip q y'); cbn; rewrite upd_same; discriminate.
+    - rewrite (F4 id Hne). apply IH. rewrite <- (F3 id Hne). exact H.
+  Qed.
+
+  Lemma ran_succ proj y1 id : forall d,
+    In (id, true) (build_log proj d y1) -> stt (build_from proj d y1) id = Succeeded.
+  Proof.
+    intros d H. destruct (in_log_true proj id d y1 H) as (d1 & q & r1 & Hd & Hid & Hr). subst d id.
+    rewrite build_from_app, build_from_cons. apply stt_mono_from. apply runs_at_succ. exact Hr.
+  Qed.
+
+  (* a file all of whose (possible) producers in the rest of the schedule are SUCCEEDED stays *)
+  Lemma fs_stable_succ proj p : forall todo y,
+    (forall q, In q todo -> In p (out q) -> stt y (sid q) = Succeeded) ->
+    fs (build_from proj todo y) p = fs y p.
+  Proof.
+    induction todo as [|q r IH]; intros y H; [reflexivity|]. rewrite build_from_cons.
+    destruct (in_dec N.eq_dec p (out q)) as [Hi|Hn].
+    - rewrite (step_build_noop_succ proj q y (H q (or_introl eq_refl) Hi)).
+      apply IH. intros q' Hq'. apply H. right. exact Hq'.
+    - rewrite IH.
+      + destruct (oN_dec (fs (step_build proj q y) p) (fs y p)) as [He|Hne]; [exact He|].
+        apply step_build_fs_changed in Hne. exfalso. apply Hn. apply Hne.
+      + intros q' Hq' Hp'. apply stt_mono_step. apply H; [right; exact Hq'|exact Hp'].
+  Qed.
+
+  Lemma exec_core_s proj sched y y1 (s : step) d r :
+    NoDup (map sid proj) -> NoDup (outs proj) -> (forall q, In q sched -> In q proj) ->
+    sched = d ++ s :: r ->
+    runs_at proj s (build_from proj d y1) ->
+    tr y1 (sid s) = tr y (sid s) ->
+    K_step y s -> stt y (sid s) = Succeeded ->
+    (forall p, In p (outs proj) -> fs y1 p = fs y p) ->
+    exec_cause_s run proj sched y y1 (build_from proj sched y1) s.
+  Proof.
+    intros Hid Hnd Hsub Hp (R1 & R2 & R3) Htr HK Hst Hout.
+    destruct (HK Hst) as (t & Ht & Hi & He & Ho).
+    destruct (prefix_inv proj y1 d) as (_ & I2 & I3).
+    set (y' := build_from proj d y1) in *.
+    assert (Hs : In s proj) by (apply Hsub; rewrite Hp; apply in_or_app; right; left; reflexivity).
+    assert (Hd : forall q, In q d -> In q proj) by (intros q Hq; apply Hsub; rewrite Hp; apply in_or_app; left; exact Hq).
+    assert (Hpend : stt y' (sid s) = Pending) by (destruct (stt y' (sid s)); [reflexivity|discriminate]).
+    pose proof (pending_untouched proj y1 d (sid s) Hpend) as Htr'. fold y' in Htr'.
+    assert (Hransucc : forall q, In (sid q, true) (build_log proj d y1) -> stt y' (sid q) = Succeeded).
+    { intros q H. apply ran_succ. exact H. }
+    assert (Hlog : forall id, In (id, true) (build_log proj d y1) -> ran_s run proj sched y1 id).
+    { intros id H. unfold ran_s. rewrite Hp. rewrite build_log_app. apply in_or_app. left. exact H. }
+    unfold can_skip in R3. rewrite Htr', Htr, Ht, Hi, He, Ho in R3.
+    apply andb_false_iff in R3. destruct R3 as [R3|R3]; [apply andb_false_iff in R3; destruct R3 as [R3|R3]|].
+    - apply ingr_neq in R3. destruct R3 as (k & Hk & Hne).
+      destruct (oN_dec (fs y1 k) (fs y k)) as [Heq|Hne1].
+      + right. right. right.
+        assert (Hne2 : fs y' k <> fs y1 k) by congruence.
+        destruct (I3 k Hne2) as (q & Hq & Hko & Hql).
+        pose proof (Hransucc q Hql) as Hqs.
+        exists k, q. split; [exact Hk|]. split; [apply Hd; exact Hq|]. split; [exact Hko|].
+        split; [intros E; rewrite E in Hqs; congruence|]. split; [apply Hlog; exact Hql|].
+        assert (Hfin : fs (build_from proj sched y1) k = fs y' k).
+        { rewrite Hp, build_from_app. apply fs_stable_succ. intros q' Hq' Hk'.
+          assert (Hq'p : In q' proj) by (apply Hsub; rewrite Hp; apply in_or_app; right; exact Hq').
+          rewrite (out_unique proj q' q k Hnd Hq'p (Hd q Hq) Hk' Hko). exact Hqs. }
+        rewrite Hfin. congruence.
+      + right. left. exists k. split; [exact Hk|]. split; [|exact Hne1].
+        destruct (is_output proj k) eqn:E; [|reflexivity].
+        exfalso. apply Hne1. apply Hout. apply memN_In. exact E.
+    - apply ingr_neq in R3. destruct R3 as (n & Hn & Hne). right. right. left.
+      exists n. split; [exact Hn|]. rewrite <- (I2 n). congruence.
+    - apply ingr_neq in R3. destruct R3 as (k & Hk & Hne). exfalso.
+      assert (Hko : In k (outs proj)) by (apply in_outs; eauto).
+      assert (Hne2 : fs y' k <> fs y1 k) by (rewrite (Hout k Hko); congruence).
+      destruct (I3 k Hne2) as (q & Hq & Hkq & Hql).
+      pose proof (Hransucc q Hql) as Hqs.
+      rewrite (out_unique proj q s k Hnd (Hd q Hq) Hs Hkq Hk) in Hqs. congruence.
+  Qed.
+
+  Theorem exec_cone_schedules : C04_exec_cone_schedules run.
+  Proof.
+    intros P P' sched y w s Hwf HPre Hs Hsub y1 Hran. apply wf_WF in Hwf. pose proof Hwf as (Hid' & Hnd' & _).
+    destruct (kept P P' (sid s)) eqn:Ek; [right|left; reflexivity].
+    destruct (stt_cases y (sid s)) as [Hst|Hst]; [left; exact Hst|].
+    destruct (in_log_true P' (sid s) sched y1 Hran) as (d & s' & r & Hp & He & Hr).
+    assert (Hs' : In s' P') by (apply Hsub; rewrite Hp; apply in_or_app; right; left; reflexivity).
+    rewrite (sid_unique P' s' s Hid' Hs' Hs He) in *.
+    apply (exec_core_s P' sched y y1 s d r Hid' Hnd' Hsub Hp Hr); [| |exact Hst|].
+    - unfold y1. cbn. rewrite Ek. reflexivity.
+    - destruct HPre as (_ & HK & _). apply HK. apply (kept_in_old P P' s Hid' Hs Ek).
+    - intros p Hpo. unfold y1. rewrite resync_out by exact Hpo. reflexivity.
+  Qed.
 End ExecConeProofs.
 
 (* ------------------------------------------------------------------------------------------ *)
@@ -443,3 +570,75 @@ Section ExecConeAmendProofs.
         apply (NoDup_app_disjoint _ _ k Hnd); apply in_outs; [exists q; auto|exists s; split; [left; reflexivity|exact Hk]].
   Qed.
 End ExecConeAmendProofs.
+
+(* ------------------------------------------------------------------------------------------ *)
+(* K_a for ALL histories of the gated engine                                                    *)
+(* ------------------------------------------------------------------------------------------ *)
+(* One dispatch decision of the gated engine (the code) is either nothing (the step is blocked by
+   its deferred flag or by a remembered amended input that is not built) or the decision of the
+   ungated engine.  C01 proves that the ungated decision keeps the invariant InvA of the states
+   between builds (proofs/EngineAmendFull.v, a_step_ok); hence every build of the gated engine
+   keeps it too, and its clause ia_K is the hypothesis K_a of exec_cone_amend. *)
+From SV Require proofs.EngineAmendProofs proofs.EngineAmendFull.
+
+Section ExecConeAmendFull.
+  Variable run : N -> list (option N) -> list (option N) -> N -> N.
+  Variable amend : N -> list (option N) -> list N.
+  Variable fails : N -> list (option N) -> list (option N) -> bool.
+  Notation InvA := (EngineAmendFull.InvA run amend fails).
+
+  Lemma gated_step_cases proj s y :
+    a_step_build run amend fails true proj s y = y \/
+    a_step_build run amend fails true proj s y = a_step_build run amend fails false proj s y.
+  Proof.
+    unfold Engine.a_step_build, Engine.decide, Engine.dyn_blocked.
+    destruct (is_succ (stt (abase y) (sid s))); [left; reflexivity|].
+    destruct (negb (ready proj (abase y) s)); cbn [orb andb]; [left; reflexivity|].
+    destruct (adef y (sid s) || existsb (unbuilt_output proj (abase y)) (adyn y (sid s)));
+      [left; reflexivity|right; reflexivity].
+  Qed.
+
+  Lemma gated_build_from_inv proj (Hwfa : wf_a amend proj) : forall todo done y,
+    proj = done ++ todo -> InvA proj y -> (forall q, In q todo -> afail y (sid q) = false) ->
+    InvA proj (a_build_from run amend fails proj todo y).
+  Proof.
+    pose proof (EngineAmendProofs.wf_a_WFA amend proj Hwfa) as (Hid & _ & _).
+    induction todo as [|s rest IH]; intros done y Hp HI Hfl; [exact HI|].
+    unfold a_build_from. cbn [fold_left].
+    change (fold_left (fun y0 s0 => a_step_build run amend fails true proj s0 y0) rest
+                      (a_step_build run amend fails true proj s y))
+      with (a_build_from run amend fails proj rest (a_step_build run amend fails true proj s y)).
+    assert (Hp' : proj = (done ++ [s]) ++ rest) by (rewrite <- app_assoc; exact Hp).
+    destruct (gated_step_cases proj s y) as [E|E]; rewrite E.
+    - apply (IH (done ++ [s]) y Hp' HI). intros q Hq. apply Hfl. right. exact Hq.
+    - destruct (EngineAmendFull.a_step_ok run amend fails proj Hwfa done rest s y Hp HI
+                                         (Hfl s (or_introl eq_refl))) as [HI1 _].
+      apply (IH (done ++ [s]) _ Hp' HI1). intros q Hq.
+      rewrite (EngineAmendFull.a_step_afail run amend fails proj s y (sid q)); [apply Hfl; right; exact Hq|].
+      apply (EngineAmendFull.sid_after done rest s q); [rewrite <- Hp; exact Hid|exact Hq].
+  Qed.
+
+  Lemma gated_world_inv proj (Hwfa : wf_a amend proj) w y :
+    InvA proj y -> InvA proj (build_world_a run amend fails true proj w y).
+  Proof.
+    intros HI. destruct (EngineAmendFull.resync_a_inv run amend fails proj Hwfa y w HI) as (HI1 & _ & _ & Hfl).
+    unfold build_world_a, Engine.a_build.
+    apply (gated_build_from_inv proj Hwfa proj [] _ eq_refl HI1). intros q _. apply Hfl.
+  Qed.
+
+  Lemma gated_worlds_inv proj (Hwfa : wf_a amend proj) ws : forall y,
+    InvA proj y -> InvA proj (fold_left (fun y x => build_world_a run amend fails true proj x y) ws y).
+  Proof.
+    induction ws as [|w ws IH]; intros y HI; [exact HI|]. cbn [fold_left]. apply IH.
+    apply gated_world_inv; assumption.
+  Qed.
+
+  Theorem exec_cone_amend_full : C04_exec_cone_amend_full run amend fails.
+  Proof.
+    intros proj ws w s Hwfa Hs y Hran.
+    pose proof (EngineAmendProofs.wf_a_WFA amend proj Hwfa) as (Hid & Hnd & _).
+    pose proof (gated_worlds_inv proj Hwfa ws empty_asys (EngineAmendFull.empty_InvA run amend fails proj)) as HI.
+    apply (exec_cone_amend run amend fails proj y w s Hid Hnd Hs); [|exact Hran].
+    intros q Hq. apply (EngineAmendFull.ia_K run amend fails proj y HI q Hq).
+  Qed.
+End ExecConeAmendFull.
